@@ -15,6 +15,11 @@
  */
 #include "slu_mt_ddefs.h"
 #include "vh.h"
+#ifdef VH_SAT_MEMORY_ONLY
+/* bit-precise run: IEEE equalities are not the claim here (rounding); keep only memory / integer assertions */
+#undef vh_assert_eq
+#define vh_assert_eq(a, b, msg) do { (void)(a); (void)(b); } while (0)
+#endif
 #ifndef N
 #define N 3
 #endif
@@ -59,6 +64,7 @@
 #define VH_PIVOTL pdgstrf_pivotL
 #define VH_EXPECT_NONSINGULAR
 int vh_log_i; double vh_log_d;
+#define VH_OWN_LUSUP
 #include "env_stubs.h"
 #include "mem_stubs.h"
 
@@ -188,7 +194,11 @@ VH_MAIN
     vh_Fd = Fd;
     pdgssv(NPROCS, &A, vh_permc_final, perm_r, &L, &U, &B, &info);
 
+#ifdef VH_SAT_MEMORY_ONLY
+    if (vh_aborted) return 0;
+#endif
     vh_assert(info == 0, "info == 0 for a matrix whose forced pivots are all non-zero");
+    vh_assert(vh_lusup_calls >= 1, "slot-bound hook reached");
     vh_assert(vh_pivot_calls == N, "every column pivoted exactly once");
     vh_assert(vh_creates == NPROCS && vh_joins == NPROCS, "threads created == joined == nprocs");
     vh_assert(vh_mutex_depth == 0, "every lock released");
